@@ -46,6 +46,7 @@ class SetDistance(Functional):
         """
         self.proj = proj
         self.args = args
+        super().__init__()
 
     def __call__(self, x: Union[Array, BlockArray]) -> float:
         r"""Compute the :math:`\ell_2` distance to the set.
@@ -117,6 +118,7 @@ class SquaredSetDistance(Functional):
         """
         self.proj = proj
         self.args = args
+        super().__init__()
 
     def __call__(self, x: Union[Array, BlockArray]) -> float:
         r"""Compute the squared :math:`\ell_2` distance to the set.
